@@ -102,6 +102,8 @@ def validate_translation(v: Verdict, items, before_meta, after_objs, platform_af
                 v.fail(f"{where}:sequence-changed", dict(detail, line=o.line))
             if not _members_kept(o, it["rec"], platform_after):
                 v.fail(f"{where}:group-members-lost-on-split-entry", dict(detail, at=idx, line=o.line))
+            if len(before_meta[idx]) > 2 and (o.note != before_meta[idx][2] or type(o.note) is not type(before_meta[idx][2])):
+                v.fail(f"{where}:note-changed-on-split-entry", dict(detail, at=idx, note=repr(o.note)[:60]))
             for side in ("sport", "dport"):
                 ps = getattr(g, side)
                 if ps is not None and ps.op in ("eq", "neq") and len(ps.operands) != 1:
@@ -148,6 +150,11 @@ def _members_kept(obj, rec, platform) -> bool:
     return True
 
 
+def _note(k: int):
+    """Notes are the caller's own objects of any type (a priority number, a dict ...)."""
+    return [10 * (k + 1), {"prio": k, "owner": "noc"}, f"n{k}", (k, "t")][k % 4]
+
+
 def judge(case) -> Verdict:
     from cisco_acl import AceGroup
 
@@ -167,7 +174,8 @@ def judge(case) -> Verdict:
             raise Invalid()
         it = aces[case.get("pick", 0) % len(aces)]
         ace = A.build_ace(it["rec"], "ios")
-        meta = [(ace.uuid, ace.line)]
+        ace.note = _note(case.get("pick", 0))
+        meta = [(ace.uuid, ace.line, ace.note)]
         line_before = ace.line
         out = ace.ungroup_ports()
         detail = {"level": level, "input": line_before, "output": [o.line for o in out]}
@@ -176,6 +184,18 @@ def judge(case) -> Verdict:
         split = validate_translation(v, [it], meta, out, "ios", detail, "ace")
         if split is False and not (len(out) == 1 and out[0] is ace):
             v.fail("ace:unsplit-entry-not-returned-as-is", detail)
+        if split and len(out) > 1 and not v.fails:
+            # the results are separate objects: moving ONE of them to another platform leaves the source entry and
+            # the other results as they were
+            others = [ace] + list(out[1:])
+            snap = [o.line for o in others]
+            try:
+                out[0].platform = "asa"
+            except ValueError:
+                pass
+            if [o.line for o in others] != snap:
+                v.fail("ace:results-share-state-with-each-other-or-the-source", dict(detail, before=snap[:4],
+                                                                                      after=[o.line for o in others][:4]))
     elif level == "acegroup":
         body = "\n".join(text.split("\n")[1:])
         grp = AceGroup(body, platform="ios")
@@ -185,7 +205,9 @@ def judge(case) -> Verdict:
         for o_, it_ in zip(objs, items):
             if it_["t"] == "ace":
                 A.attach_members(o_, it_["rec"])
-        meta = [(o.uuid, o.line) for o in objs]
+        for k_, o in enumerate(objs):
+            o.note = _note(k_)
+        meta = [(o.uuid, o.line, o.note) for o in objs]
         grp.ungroup_ports()
         detail["output"] = grp.line
         split = validate_translation(v, items, meta, list(grp.items), "ios", detail, "acegroup")
@@ -201,7 +223,9 @@ def judge(case) -> Verdict:
         objs = list(A.flat_items(acl.items))
         if len(objs) != len(items):
             raise Invalid()
-        meta = [(o.uuid, o.line) for o in objs]
+        for k_, o in enumerate(objs):
+            o.note = _note(k_)
+        meta = [(o.uuid, o.line, o.note) for o in objs]
         blocks_before = [b for _, b in A.flat_with_block(acl.items)]
         if level == "acl":
             acl.ungroup_ports()
@@ -213,7 +237,7 @@ def judge(case) -> Verdict:
         detail["output"] = acl.line
         after = list(A.flat_items(acl.items))
         if level == "platform":
-            meta = [(u, ln) for (u, ln) in meta]
+            meta = list(meta)
         split = validate_translation(v, items, meta, after, after_platform, detail, level)
         _ = blocks_before
         again = case.get("again")
@@ -222,9 +246,9 @@ def judge(case) -> Verdict:
             G.validate_rec(again, "ios")
             if neq_multi(again) or G.rec_has_group(again):
                 raise Invalid()
-            order = {u: k for k, (u, _) in enumerate(meta)}
+            order = {m_[0]: k for k, m_ in enumerate(meta)}
             items2 = []
-            for it, (u, _) in zip(items, meta):
+            for it, _m in zip(items, meta):
                 if it["t"] == "ace":
                     items2.extend({"t": "ace", "rec": r} for r in expected_run(it["rec"]))
                 else:
